@@ -33,6 +33,7 @@ func init() { register("wr", wrMain) }
 type wrCfg struct {
 	nh.Cfg
 	NK, Rounds, Ops, Readers int
+	Backup                   string // directory for concurrent backups ("" = none)
 }
 
 var wrNoMem bool
@@ -121,6 +122,27 @@ func wrScenario(t *tr.W, rnd *rand.Rand, c wrCfg, idx int) string {
 				}
 			}()
 		}
+		// a backup of an open snapshot running concurrently with the writers, readers and GC (C05)
+		var bkSn int
+		var bkErr error
+		bkDone := make(chan struct{})
+		if c.Backup != "" && round > 0 && rnd.Intn(2) == 0 {
+			smu.Lock()
+			sp := snaps[rnd.Intn(len(snaps))]
+			ok := sp.s.Open()
+			smu.Unlock()
+			if ok {
+				bkSn = sp.sn
+				os.RemoveAll(c.Backup)
+				go func() {
+					defer close(bkDone)
+					bkErr = d.StoreToDisk(c.Backup, sp.s, 1+rnd.Intn(3), nil)
+				}()
+			}
+		}
+		if bkSn == 0 {
+			close(bkDone)
+		}
 		for w := 0; w < c.Writers; w++ {
 			wg.Add(1)
 			go func(w int) {
@@ -155,6 +177,32 @@ func wrScenario(t *tr.W, rnd *rand.Rand, c wrCfg, idx int) string {
 		wg.Wait()
 		atomic.StoreInt32(&stop, 1)
 		rwg.Wait()
+		<-bkDone
+		if bkSn != 0 {
+			ev := tr.Ev{"e": "Restore", "sn": bkSn, "stored": bkErr == nil}
+			if bkErr == nil {
+				rc := c.Cfg
+				rc.Writers = 1
+				rc.Guard = false
+				memWas := atomic.SwapInt32(&memOn, 0) // the restored instance has its own allocator: not part of this stream
+				nd := nh.Open(rc)
+				rs, err := nd.LoadFromDisk(c.Backup, 1+rnd.Intn(3), nil)
+				ev["loaded"] = err == nil
+				if err == nil {
+					nd.RefreshStore()
+					items, _ := nd.Scan(rs, 0)
+					ev["items"], ev["count"] = items, rs.Count()
+					rs.Close()
+				} else {
+					ev["items"], ev["count"], ev["err"] = [][2]int{}, 0, err.Error()
+				}
+				nd.Shutdown()
+				atomic.StoreInt32(&memOn, memWas)
+			} else {
+				ev["loaded"], ev["items"], ev["count"], ev["err"] = false, [][2]int{}, 0, bkErr.Error()
+			}
+			t.Emit(ev)
+		}
 		// quiescent phase
 		s, err := d.NewSnapshot()
 		if err != nil {
@@ -223,6 +271,7 @@ func wrMain(args []string) int {
 	big := fs.Bool("big", false, "")
 	skip := fs.Int("skip", 0, "skip the first scenarios (resume after a crash)")
 	nomem := fs.Bool("nomem", false, "do not record allocator events")
+	backup := fs.String("backup", "", "directory: run StoreToDisk concurrently with the writers and restore it afterwards")
 	fs.Parse(args)
 	wrNoMem = *nomem
 	t, err := tr.Create(*out)
@@ -249,6 +298,11 @@ func wrMain(args []string) int {
 		}
 		if *guard {
 			c.MM, c.Guard = true, true
+		}
+		if *backup != "" {
+			c.Backup = *backup
+			c.Cfg.Delta = srnd.Intn(2) == 0
+			c.Rounds = 3 + srnd.Intn(3)
 		}
 		if i < *skip {
 			continue
